@@ -43,6 +43,9 @@ PUMP_COST = [(11310, 2850), (22620, 3225), (24880, 3307), (31670, 3563), (38000,
 PIPE_GHG = [5.90, 9.71, 13.94, 18.43, 23.16, 28.09, 33.09, 38.35, 43.76, 54.99, 66.57, 72.58]
 
 
+# appended to RULE in the evidence (vlib/runner.py)
+RULE_ADDENDUM = 'Added in round 4: reservoirs with net inflow in the hand-made result tables (Todini).'
+
 def n_cases(tier):
     return 200 if tier == 'quick' else 3000
 
